@@ -271,7 +271,7 @@ func (c *Ctx) semiGuard() *semiGuard {
 			}
 			cal := call.Call.StaticCallee()
 			switch {
-			case cal == g.closer:
+			case cal == g.closer || forwardsByteTo(cal, g.closer):
 				gc = call
 			case isFlush(cal):
 				fl = call
